@@ -110,8 +110,11 @@ impl EoNState {
         state.birth_epoch = state.birth_epoch.wrapping_add(1);
     }
 
-    fn birth_completed(&self) {
-        self.inner.lock().unwrap().birthed = true
+    /// Mark the node birth that was started last as completed, returns its epoch
+    fn birth_completed(&self) -> u64 {
+        let mut state = self.inner.lock().unwrap();
+        state.birthed = true;
+        state.birth_epoch
     }
 
     fn birth_topic(&self) -> NodeTopic {
@@ -473,7 +476,7 @@ impl Node {
         }
     }
 
-    async fn node_birth(&mut self) -> Result<(), ()> {
+    async fn node_birth(&mut self) -> Result<u64, ()> {
         /* [tck-id-topics-nbirth-seq-num] The NBIRTH MUST include a sequence number in the payload and it MUST have a value of 0. */
         self.state.start_birth();
 
@@ -488,10 +491,7 @@ impl Node {
         let payload = self.generate_birth_payload(bdseq, 0);
         let topic = self.state.birth_topic();
         match self.client.publish_node_message(topic, payload).await {
-            Ok(_) => {
-                self.state.birth_completed();
-                Ok(())
-            }
+            Ok(_) => Ok(self.state.birth_completed()),
             Err(_) => {
                 error!(
                     "Publishing node birth message failed. node={}",
@@ -507,13 +507,15 @@ impl Node {
             "Birthing Node. node={} type={birth_type:?}",
             self.state.edge_node_id
         );
-        if self.node_birth().await.is_err() {
-            return;
-        }
-        self.devices
-            .lock()
-            .unwrap()
-            .birth_devices(birth_type, &self.template_registry);
+        let node_birth_epoch = match self.node_birth().await {
+            Ok(epoch) => epoch,
+            Err(_) => return,
+        };
+        self.devices.lock().unwrap().birth_devices(
+            birth_type,
+            &self.template_registry,
+            node_birth_epoch,
+        );
     }
 
     async fn rebirth(&mut self) {
